@@ -167,12 +167,15 @@ def digest_setter(member: str):
             assign(d, good)
         FT.a2b_hex = model_a2b_hex
         before = getattr(d, member)
+        packed_before = d._pack()  # the binary halves: what equality, hashing and the writers use
         try:
             try:
                 assign(d, None if none else val)
             except TypeError:
                 rejected_rightly = (not none) and not (allhex and n == 2 * want)
-                return rejected_rightly and getattr(d, member) is before
+                packed_after = d._pack()
+                same_packed = len(packed_after) == len(packed_before) and all(x is y for x, y in zip(packed_after, packed_before))
+                return rejected_rightly and getattr(d, member) is before and same_packed
         finally:
             FT.a2b_hex = saved
         if none:
@@ -503,7 +506,10 @@ def replay(res):
             if not isinstance(val, str):
                 continue
             rec = D()
+            twin = D()
             setattr(rec.d, m, "f" * n)
+            setattr(twin.d, m, "f" * n)
+            twin._generated = rec._generated
             try:
                 setattr(rec.d, m, val)
                 acc = True
@@ -513,5 +519,18 @@ def replay(res):
             now = getattr(rec.d, m)
             if acc != should or (not acc and now != "f" * n) or (acc and now != val):
                 return {"reproduced": True, "key": f"C05/digest/{m}", "what": f"digest.{m} = {val!r}: {'accepted' if acc else 'rejected'}, member now {now!r}", "input": {"member": m, "value": val}}
+            if not acc:
+                # a rejected assignment leaves the record unchanged: it still equals its untouched twin and still serialises to the same bytes
+                from flow.record.packer import RecordPacker
+
+                try:
+                    same = rec == twin and rec._pack() == twin._pack() and RecordPacker().pack(rec) == RecordPacker().pack(twin)
+                    back = RecordPacker()
+                    back.register(D)
+                    ok_rt = getattr(back.unpack(RecordPacker().pack(rec)).d, m) == "f" * n
+                except Exception as e:  # noqa: BLE001
+                    same, ok_rt = False, f"{type(e).__name__}: {e}"
+                if not same or ok_rt is not True:
+                    return {"reproduced": True, "key": f"C05/digest/{m}/rejected-changes-packed", "what": f"the rejected assignment digest.{m} = {val!r} changed the record: it no longer equals / serialises like its untouched twin ({ok_rt})", "input": {"member": m, "value": val}}
         return {"reproduced": False, "what": "digest setter behaves as specified on the probe values"}
     return {"reproduced": False, "what": "no public-API replay for this obligation"}
